@@ -193,7 +193,7 @@ def check(spec, ctx):
                 supplied["leftover"] = lo.seq
 
         vec = V(recs[0])
-        annot.touch([vec] + mods, a)
+        sut(annot.touch, [vec] + mods, a)
 
         def go():
             with warnings.catch_warnings():
